@@ -28,7 +28,7 @@ pub fn profile(tier: Tier) -> Profile {
     p.w_flush = 7;
     p.w_reopen = 1;
     p.w_read = 0;
-    p.faults = FaultGen::Io;
+    p.faults = FaultGen::IoAndCreate;
     p
 }
 
@@ -75,8 +75,19 @@ pub fn judge_acks(rec: &Recorded) -> Result<(u64, u64, u64), Fail> {
                     if j <= start {
                         continue;
                     }
-                    // bytes of this chunk that were journalled before the flush call
-                    let chunk_end = chunk_end_of(rec, start);
+                    // bytes of this chunk that were journalled before the flush call: from the
+                    // expected journal layout, or — once an injected caller-side failure has made
+                    // the layout unpredictable — from the store's own account of its chunks at
+                    // the time of the flush call (files it no longer lists are left out)
+                    let chunk_end = if rec.layout.is_some() {
+                        chunk_end_of(rec, start)
+                    } else {
+                        match fi.chunks.iter().position(|c| c.0 == start) {
+                            Some(k) if k + 1 < fi.chunks.len() => Some(fi.chunks[k].1),
+                            Some(_) => None,
+                            None => continue,
+                        }
+                    };
                     let needed = (j.min(chunk_end.unwrap_or(u64::MAX)) - start) as usize;
                     if needed == 0 {
                         continue;
